@@ -496,7 +496,15 @@ func c04Run(t *testing.T, s Scenario, src verifsim.DecisionSource, keep bool) *R
 						}
 						truth[fi] = append(truth[fi], c04Line{ln, cls})
 					}
-					_, err := fd.Write([]byte(ln + "\n"))
+					// in two pieces at the same simulated instant, with a scheduling
+					// point in between: the follower may read the first piece, reach the
+					// end of the file and look around before the line is completed -
+					// and after the last sentinel nothing is ever written again
+					half := len(ln) / 2
+					_, err := fd.Write([]byte(ln[:half]))
+					must(err)
+					verifsim.Yield("harness/write")
+					_, err = fd.Write([]byte(ln[half:] + "\n"))
 					must(err)
 					w.Sleep(300 * time.Millisecond)
 				}
